@@ -644,6 +644,49 @@ AcceptsIdent(inst, o) ==
   /\ (~inst.holds /\ inst.lx.ex /\ o.l = "val") => o.lq = <<inst.lx.v>>
   /\ (~inst.holds /\ inst.rx.ex /\ o.r = "val") => o.rq = <<inst.rx.v>>
 
+\* ------------------------------------------------------------------ evaluation contexts
+(* A student's text does not reach the function tables by one road only.  The CONTEXT is a dimension of the model:
+     "eval" / "eval_inf"     evaluator(...) with allow_inf False / True
+     "fg" "ng"               FormulaGrader / NumericalGrader with default options
+     "fg_inf" "ng_inf"       the same with allow_inf=True
+     "mg" "mg_supp" "mg_nomis"  MatrixGrader: default, suppress_matrix_messages=True, answer_shape_mismatch not raised
+     "interval"              an endpoint of an IntervalGrader answer (default subgrader: NumericalGrader(allow_inf=True))
+     "sumlimit"              a limit of a SumGrader answer (evaluated with allow_inf=True)
+   The verdict for a call of a SCALAR built-in with numbers as arguments does not depend on the context:
+   outside the domain, on a pole, with the wrong number of arguments or an unknown name a student-facing error is
+   required everywhere ("err"); inside the domain the context has to come to a result ("val": a value from evaluator,
+   a grading result from a grader); where a value or an error is tolerated anything but a foreign exception ("any").
+   Decision on allow_inf (docs/grading_math/formula_grader.md: it "allows expressions to evaluate to infinity (or
+   negative infinity), and also makes the constant infty available"): with allow_inf a quantity that IS infinite as far
+   as floats can tell -- the constant infty, an overflow such as exp(1000) -- may be delivered as inf or still be
+   refused ("any"); a pole of a function (ln 0, cot 0, arctanh 1, ...) has no value, not even an infinite one with a
+   definite sign, and stays an error.  (suppress_matrix_messages is documented to silence messages about matrices;
+   calls with array arguments are therefore not part of this dimension.) *)
+Contexts == {"eval", "eval_inf", "fg", "ng", "fg_inf", "ng_inf", "mg", "mg_supp", "mg_nomis", "interval", "sumlimit"}
+CtxTable(x) == IF x \in {"mg", "mg_supp", "mg_nomis"} THEN "matrix" ELSE "formula"
+CtxAllowsInf(x) == x \in {"eval_inf", "fg_inf", "ng_inf", "interval", "sumlimit"}
+CtxOneArgOnly(x) == x \in {"interval", "sumlimit"}         \* the text is one item of a comma-separated input
+CtxVerdict(x, f, args) ==
+  LET o == Outcome(CtxTable(x), f, args) IN
+  IF Allowed(o) = "val" THEN (IF x = "sumlimit" THEN "any" ELSE "val")    \* (a limit also has to be an integer)
+  ELSE IF Allowed(o) = "valOrErr" THEN "any"
+  ELSE IF o.why = "overflow" /\ CtxAllowsInf(x) THEN "any"
+  ELSE "err"
+\* obs: "err" a student-facing error was raised; "val" evaluator returned a finite scalar; "graded" a grader returned a
+\* result; "inf" evaluator returned an infinite value; "bad" anything else (foreign exception, nan, warning)
+AcceptsCtx(v, obs) == CASE v = "err" -> obs = "err" [] v = "val" -> obs \in {"val", "graded"} [] OTHER -> obs # "bad"
+\* error-ness is a property of the call, not of the road it travels
+LawContext(f, args) ==
+  LET allScalar == \A i \in 1..Len(args) : A!IsScalar(args[i]) IN
+  (allScalar /\ (f \in DOMAIN FormulaSig \/ f \notin DOMAIN MatrixSig)) =>
+     /\ \A x \in Contexts : CtxVerdict(x, f, args) \in {"err", "val", "any"}
+     /\ \A x, y \in Contexts : (CtxVerdict(x, f, args) = "err" /\ CtxVerdict(y, f, args) # "err") =>
+                                  (CtxAllowsInf(y) /\ Outcome("formula", f, args) = MustErr("overflow"))
+     /\ \A x \in Contexts : (~CtxAllowsInf(x)) => (CtxVerdict(x, f, args) = "err" <=> Allowed(Outcome("formula", f, args)) = "err")
+     \* wrapping the call in a total function does not turn an error into a value: the symbolic walk agrees
+     /\ \A tb \in Tables : (Allowed(Outcome(tb, f, args)) = "err") =>
+           Ev(F1("arctan", Fn(f, Tup([i \in 1..Len(args) |-> ArrayT(args[i])], Len(args)))), tb).s = "err"
+
 \* ------------------------------------------------------------------ history independence
 (* The outcome of evaluating a text depends on the text and on the scope handed in, not on which scope evaluated that
    text before.  Reference: a history is a sequence of scopes in which one and the same text is evaluated; the allowed
